@@ -145,6 +145,8 @@ class Script:
         self.lines.append("P %d %s %s %d" % (db, hx(key), value, deadline))
         self.events.append(["preset", db, key if isinstance(key, str) else key.decode("latin-1"), value, deadline])
         return self
+    def select_embedded(self, db):
+        self.lines.append("D %d" % db); self.events.append(["select_embedded", db]); return self
     def advance(self, ms):
         self.lines.append("A %d" % ms); self.events.append(["advance", ms]); return self
     def sweep(self, db):
